@@ -62,13 +62,17 @@ public:
         }
     }
 
-    void subscribe(awaiter_collector &chain) {
-        assert (this != chain.load(std::memory_order_relaxed));
-        //release memory order because we need to other thread to see change of _next
-        //this is last operation of this thread with awaiter
-        while (!chain.compare_exchange_weak(_next, this, std::memory_order_release));
-
-        assert (_next != this);
+    awaiter *subscribe(awaiter_collector &chain) {
+        //previous top of the chain is kept in a local variable, because once
+        //the awaiter is published, it must not be accessed by this thread anymore
+        awaiter *prev = chain.load(std::memory_order_relaxed);
+        do {
+            assert (prev != this);
+            _next = prev;
+            //release memory order because we need to other thread to see change of _next
+            //this is last operation of this thread with awaiter
+        } while (!chain.compare_exchange_weak(prev, this, std::memory_order_release, std::memory_order_relaxed));
+        return prev;
     }
     ///releases chain atomicaly
     /**
